@@ -105,7 +105,70 @@ def _prohibitive(ctx, rng, count):
             ctx.nontriv(("proh", B.shape, tuple(r), tuple(proh)))
 
 
+def infinite_costs_part(ctx, count):
+    """costs +inf ("never place a sensor here unless nothing else is left") and -inf ("place one here first") are ordinary members
+    of the cost scale: `residual norm − cost` is then −inf / +inf, and the greedy rule still decides.  Judged with an independent
+    float64 projection oracle (small integer matrices; steps whose leading rows are ill-conditioned are skipped)."""
+    from pysensors.optimizers import CCQR
+    from pysensors.reconstruction import SSPOR
+    import warnings
+    rng = ctx.rng
+    for idx in range(count):
+        n, m = rng.randint(4, ctx.scale(9, 14)), rng.randint(2, ctx.scale(6, 9))
+        B = gen.gen_generic_matrix(rng, n, m)
+        costs = np.array([rng.randint(0, 8) / 2 for _ in range(n)])
+        kinds = rng.choice([["+"], ["-"], ["+", "-"], ["+", "+"]])
+        marked = rng.sample(range(n), min(n - 1, len(kinds) + rng.randint(0, 2)))
+        for t, i in enumerate(marked):
+            costs[i] = np.inf if kinds[t % len(kinds)] == "+" else -np.inf
+        via = rng.choice(["ccqr", "sspor"])
+        ctx.evaluations += 1
+        ctx.count("infinite_costs:" + "".join(sorted(set(kinds))) + "/" + via)
+        desc = {"B": B.tolist(), "costs": [("inf" if c == np.inf else "-inf" if c == -np.inf else float(c)) for c in costs], "via": via}
+        with warnings.catch_warnings():
+            warnings.simplefilter("ignore")
+            try:
+                if via == "ccqr":
+                    r = np.array(CCQR(sensor_costs=costs.copy()).fit(B.copy()).get_sensors()).tolist()
+                else:
+                    from pysensors.basis import Identity
+                    r = np.array(SSPOR(basis=Identity(), optimizer=CCQR(sensor_costs=costs.copy())).fit(B.T.copy(), quiet=True, seed=0).get_all_sensors()).tolist()
+            except ValueError:
+                ctx.count("infinite_costs_rejected")
+                continue
+        if not gen.is_perm(r, n):
+            ctx.violation("concrete", f"CCQR ranking {r} is not a permutation", {"signature": "not-a-permutation", "inf_case": desc, "index": idx})
+            continue
+        k = min(n, m)
+        bad = None
+        for j in range(k):
+            rest = r[j:]
+            pick = r[j]
+            if costs[pick] == np.inf and any(costs[c] != np.inf for c in rest):
+                bad = (j, f"step {j} ranks sensor {pick} (cost +inf) although sensors with finite cost are still unranked")
+                break
+            if any(costs[c] == -np.inf for c in rest) and costs[pick] != -np.inf:
+                bad = (j, f"step {j} ranks sensor {pick} although a sensor with cost -inf (score +inf) is still unranked")
+                break
+            if np.isfinite(costs[pick]) and not any(costs[c] == -np.inf for c in rest):
+                lead = B[r[:j], :]
+                if j and np.linalg.cond(lead) > 1e6:
+                    break
+                P = np.eye(m) - (np.linalg.pinv(lead) @ lead if j else 0)
+                sc = {c: float(np.linalg.norm(P @ B[c])) - costs[c] for c in rest if np.isfinite(costs[c])}
+                if sc[pick] < max(sc.values()) - 1e-9 * (1 + float(np.max(np.abs(B)))):
+                    best = max(sc, key=sc.get)
+                    bad = (j, f"step {j} ranks sensor {pick} (norm − cost = {sc[pick]:.6g}) although sensor {best} offers {sc[best]:.6g}")
+                    break
+        if bad:
+            ctx.violation("concrete", f"CCQR with costs {desc['costs']}: {bad[1]} (ranking {r})",
+                          {"signature": "greedy-rule:infinite-costs", "inf_case": desc, "observed": r, "step": bad[0], "index": idx})
+        else:
+            ctx.nontriv(("inf-costs", B.shape, tuple(desc["costs"]), tuple(r[:k])))
+
+
 def run(ctx: C.Ctx):
+    infinite_costs_part(ctx, ctx.scale(40, 500))
     rng = ctx.rng
     todo = []
     for idx in range(ctx.scale(400, 8000)):
@@ -165,6 +228,15 @@ def run(ctx: C.Ctx):
 
 def replay(ctx: C.Ctx, payload):
     d = payload["data"]
+    if "inf_case" in d:
+        from pysensors.optimizers import CCQR
+        c = d["inf_case"]
+        costs = np.array([{"inf": np.inf, "-inf": -np.inf}.get(v, v) for v in c["costs"]], dtype=float)
+        r = np.array(CCQR(sensor_costs=costs).fit(np.array(c["B"], dtype=float)).get_sensors()).tolist()
+        print("# replayed:", payload.get("what"), "-> ranking now", r, "(recorded:", d.get("observed"), ")")
+        if r == d.get("observed"):
+            ctx.violation("concrete", payload.get("what", "infinite-cost case"), {"signature": "greedy-rule:infinite-costs", "inf_case": c, "observed": r})
+        return
     case = OptCase.from_desc(d["case"])
     res = case.run_real()
     J = greedy.judge_batch(ctx, [(case, res)])[0]
